@@ -104,6 +104,12 @@ def equal(a, b):
     (after which the state of decoder and reader is documented as unspecified)."""
     if a == b:
         return True
+    # which header / layout error an input gets that is invalid in two ways at once is not distinguished either
+    # (nor where the reader stands after a header that failed to parse)
+    canon = lambda s: _re.sub(r"hdr=err@\d+", "hdr=err", _re.sub(r"(hdr|lay|L)=err:[A-Za-z0-9]+(:\d+)?", r"\1=err", s))
+    a, b = canon(a), canon(b)
+    if a == b:
+        return True
     ta, tb = a.split(" "), b.split(" ")
     for x, y in zip(ta, tb):
         if x == y:
